@@ -79,6 +79,23 @@ def graphs(ctx):
                 ps.add(rng.below(n))        # back edges, self loops, cross edges (irreducible loops)
             preds.append(tuple(sorted(ps)))
         out.append((n, preds))
+    # sizes: every node count up to a bound (representation boundaries such as 8, 16, 32, 64, 128 nodes included, with more samples
+    # around them), structured (chains with diamonds and loops) and random
+    top = 140 if ctx.tier == "quick" else 300
+    for n in range(2, top + 1):
+        near = any(abs(n - b) <= 1 for b in (8, 16, 32, 64, 128, 256))
+        for rep in range(4 if near else 1):
+            preds = [()]
+            for i in range(1, n):
+                ps = {i - 1} if rep % 2 == 0 or i < 2 else {rng.below(i)}
+                if i % 5 == 3 and i >= 3:
+                    ps.add(i - 3)                       # a diamond closes
+                if i % 7 == 2 and i + 3 < n:
+                    ps.add(i + 3)                       # a loop back edge
+                if rep >= 2 and rng.chance(1, 4):
+                    ps.add(rng.below(n))
+                preds.append(tuple(sorted(ps)))
+            out.append((n, preds))
     return out, n_exh
 
 
@@ -92,7 +109,12 @@ def run(ctx):
     impl = []
     for a in range(0, len(lines), 400):
         impl += vlib.run_harness_robust("dom", lines[a:a + 400], timeout_per_batch=20, max_restarts=6)
-    model = vlib.run_model(["dom " + l for l in lines])
+    # the list-based Lean model is cubic: graphs beyond 15 nodes are compared with the path definitions only
+    small = [k for k, (n, _) in enumerate(gs) if n <= 15]
+    model_small = vlib.run_model(["dom " + lines[k] for k in small])
+    model = [None] * len(lines)
+    for k, m in zip(small, model_small):
+        model[k] = m
     l1 = l2 = 0
     shapes = {"joins": 0, "self-loops": 0, "back-edges": 0}
     first = None
@@ -107,7 +129,7 @@ def run(ctx):
             l1 += 1
             ctx.violation("dom-spec", {"stage": "L1 path definitions", "input": "dom " + l, "implementation": i, "specified": s, "model": m,
                                        "broken": None, "how_to_rerun": "echo '%s' | harness/target/debug/vharness dom" % l})
-        elif i != m:
+        elif m is not None and i != m:
             l2 += 1
             first = first or (l, i, m)
     if first and not l1:
@@ -119,8 +141,9 @@ def run(ctx):
     cov["evaluations"] = len(lines)
     cov["distinct_nontrivial"] = len(set(lines))
     cov["rule"] = ("all rooted digraphs (entry without predecessor, every node reachable, self loops allowed) with at most %d nodes: %d graphs, "
-                   "exhaustive; plus random graphs up to %d nodes with back/cross/self edges; distinct request lines counted"
-                   % (4 if ctx.tier == "quick" else 5, n_exh, 11 if ctx.tier == "quick" else 15))
+                   "exhaustive; plus random graphs up to %d nodes with back/cross/self edges; plus every node count from 2 to %d (chains with diamonds and "
+                   "loops, random edges; four graphs each next to 8, 16, 32, 64, 128, 256 nodes), compared with the path definitions; distinct request lines counted"
+                   % (4 if ctx.tier == "quick" else 5, n_exh, 11 if ctx.tier == "quick" else 15, 140 if ctx.tier == "quick" else 300))
     cov["exhaustive_small_graphs"] = True
     cov["shapes"] = shapes
     cov["l1_spec_failures"] = l1
